@@ -329,4 +329,58 @@ theorem setattr_code_eq_model (parseInt : Str → Except PyErr Int) (sv tr : PyV
         Val.mutable, assocSet, pyCompare, compareB, bnot, pyEq, hpe, getField, Field.toVal, hashable,
         setItemAt, dSet_embAL, putField, styleCx_ensure, ofStyle, optV, resultOf, Attrs.emptyVal, hne]
 
+/-! ### non-vacuity: concrete runs of the dump through the interpreter (kernel evaluation) -/
+
+-- A failing `decide +kernel` explains itself by re-evaluating the proposition with the elaborator, which is very slow on
+-- runs of the interpreter (minutes, gigabytes): the small budget makes a broken example fail at once.  The kernel check of
+-- a correct example does not consume it.
+set_option maxHeartbeats 2000
+
+private def d2 : Attrs.AL Str := [("color".toList, "red".toList), ("padding-top".toList, "5px".toList)]
+private def sobj (d : Attrs.AL Str) : List (String × Field) := ofStyle (.str "x".toList) (.opaque "weakref") d
+private def s (t : String) : Val := .py (.str t.toList)
+
+/-- the hypotheses of the two dot-access theorems are met by ordinary style names, and fail for a reserved one -/
+example : reservedNames.contains "paddingTop".toList = false ∧ "__".toList.isPrefixOf "paddingTop".toList = false
+    ∧ reservedNames.contains "tag".toList = true := by decide
+example : runMeth (styleCx pyIntOfStr) StyleAttribute_isEmpty_ast (sobj d2) [] = (some (sobj d2), .ok (.py (.bool false)))
+    ∧ runMeth (styleCx pyIntOfStr) StyleAttribute_isEmpty_ast (sobj []) [] = (some (sobj []), .ok (.py (.bool true))) := by
+  decide +kernel
+/-- `setProperty`: an existing name keeps its place, a new one goes last; `''` and `None` delete; deleting an absent name is
+no error; the name is NOT translated (no dash name for `paddingTop`) -/
+example : runMeth (styleCx pyIntOfStr) StyleAttribute_setProperty_ast (sobj d2) [s "color", s "blue"]
+    = (some (sobj [("color".toList, "blue".toList), ("padding-top".toList, "5px".toList)]), .ok (.py .none)) := by
+  decide +kernel
+example : runMeth (styleCx pyIntOfStr) StyleAttribute_setProperty_ast (sobj d2) [s "paddingTop", s "1px"]
+    = (some (sobj (d2 ++ [("paddingTop".toList, "1px".toList)])), .ok (.py .none)) := by decide +kernel
+example : runMeth (styleCx pyIntOfStr) StyleAttribute_setProperty_ast (sobj d2) [s "color", .py .none]
+    = (some (sobj [("padding-top".toList, "5px".toList)]), .ok (.py .none))
+    ∧ runMeth (styleCx pyIntOfStr) StyleAttribute_setProperty_ast (sobj d2) [s "float", s ""]
+    = (some (sobj d2), .ok (.py .none)) := by decide +kernel
+/-- a value that is not a text is stored as `str(value)` (outside the hand model's `Option Str`) -/
+example : runMeth (styleCx pyIntOfStr) StyleAttribute_setProperty_ast (sobj []) [s "z-index", .py (.int 3)]
+    = (some (sobj [("z-index".toList, "3".toList)]), .ok (.py .none)) := by decide +kernel
+/-- `_asStr` -/
+example : runMeth (styleCx pyIntOfStr) StyleAttribute_asStr_ast (sobj d2) []
+    = (some (sobj d2), .ok (s "color: red; padding-top: 5px"))
+    ∧ runMeth (styleCx pyIntOfStr) StyleAttribute_asStr_ast (sobj []) [] = (some (sobj []), .ok (s "")) := by decide +kernel
+/-- `style.paddingTop` reads `padding-top`; a name without capitals is read as it is; an absent name is `''` -/
+example : runMeth (styleCx pyIntOfStr) StyleAttribute_getattribute_ast (sobj d2) [s "paddingTop"] = (some (sobj d2), .ok (s "5px"))
+    ∧ runMeth (styleCx pyIntOfStr) StyleAttribute_getattribute_ast (sobj d2) [s "color"] = (some (sobj d2), .ok (s "red"))
+    ∧ runMeth (styleCx pyIntOfStr) StyleAttribute_getattribute_ast (sobj d2) [s "float"] = (some (sobj d2), .ok (s "")) := by
+  decide +kernel
+/-- a reserved name is the plain attribute (`object.__getattribute__`): the field itself -/
+example : (runMeth (styleCx pyIntOfStr) StyleAttribute_getattribute_ast (sobj d2) [s "_styleValue"]).2 = .ok (s "x") := by
+  decide +kernel
+/-- `style.paddingTop = v` writes `padding-top`; a false value deletes -/
+example : runMeth (styleCx pyIntOfStr) StyleAttribute_setattr_ast (sobj d2) [s "paddingTop", s "9px"]
+    = (some (sobj [("color".toList, "red".toList), ("padding-top".toList, "9px".toList)]), .ok (s "9px"))
+    ∧ runMeth (styleCx pyIntOfStr) StyleAttribute_setattr_ast (sobj d2) [s "paddingTop", s ""]
+    = (some (sobj [("color".toList, "red".toList)]), .ok (s ""))
+    ∧ runMeth (styleCx pyIntOfStr) StyleAttribute_setattr_ast (sobj d2) [s "marginLeft", .py .none]
+    = (some (sobj d2), .ok (.py .none)) := by decide +kernel
+/-- assigning a reserved name goes to `object.__setattr__`, which is NOT modelled: an error, never a value -/
+example : (runMeth (styleCx pyIntOfStr) StyleAttribute_setattr_ast (sobj d2) [s "tag", .py .none]).2
+    = .error (unsupported "object.__setattr__") := by decide +kernel
+
 end AHP.C10Code
